@@ -68,6 +68,18 @@ CLAIMED = {
         technique="SCC of the monomorphic call graph + MIR dominators + type-containment finiteness argument",
         design_ref="DESIGN.md section 4 C18",
     ),
+    "C20": dict(
+        level="other",
+        text="Guards, pairing and provenance of sequence-gate expansion: the expansion call is dominated by the parameter-count check (`!=` on the two parameter lists), the no-modifiers check, the cycle check whose result decides a branch, and the filter; DefGateSequence::expand is dominated by the qubit-count check; ExpansionStack::check errs exactly when the name is on the stack; with_gate_sequence pairs insert with a pop conditional on the insert and after the closure; the nested expansion runs inside that closure on the same stack with the checked definition's name; each produced gate takes name/modifiers from the element, parameters through substitute_variables, qubits through the formal->actual map built by an order-preserving zip; the keep-predicate's decision table over (specification variant, filter(name), referenced) equals `not sequence or not selected or referenced`, and the referenced set is seeded from exactly the unselected definitions. Reachability itself (petgraph) is assumed.",
+        technique="MIR dominator / guard-condition decoding, acquire-release pairing, origin-expression provenance, CFG decision-table enumeration over a finite abstract domain",
+        design_ref="DESIGN.md section 4 C20",
+    ),
+    "C21": dict(
+        level="other",
+        text="Sibling agreement of expand_with_source_map_impl and expand_without_source_map_impl by effect skeleton (same traversal, same guarded recursion on the expanded elements, extend vs push of the same values, no reordering adaptor); provenance of every field of the two SourceMapEntry pushes (enumerate index; len-1 read after the push; len read before the extend; start + len of the very value extended; the nested map handed to the nested call; the returned signature), one entry per branch; and field-by-field agreement of the two Program-level entry points. Equality of concrete outputs is not evaluated.",
+        technique="sibling effect-skeleton comparison + origin-expression provenance with dominance (read-before/after-write) over MIR",
+        design_ref="DESIGN.md section 4 C21",
+    ),
     "C22": dict(
         level="other",
         text="Provenance of source and target at every add_edge site of ScheduledBasicBlock::build: sources are BlockStart or nodes drawn from a dependency queue / the pending-memory results / the trailing set; targets are the loop's current node or BlockEnd; queues and the trailing set receive only the current node; memory edges are guarded against self-edges; frame queues start from BlockStart; all pending nodes and the empty block are linked to BlockEnd. Forward-only edges imply acyclicity for every block. Reachability for RF instructions matching no frame is not decided.",
